@@ -11,7 +11,87 @@ TRUST = ("Trusted: the pyvc VC generator's encoding of the Python subset (DESIGN
          "struct/os.urandom/bytes.decode/str.encode/zlib/socket/selector/threading (pyvc/externals.py, pyvc/extworld.py; "
          "listed per run in evidence.coverage.trusted_base).")
 
+TECH = "contract-based deductive verification: ast->SMT VC generation over the real source (pyvc), z3 5.1.0 with cvc5 / z3 4.8.12 fall-back"
+GEN = (" Generator protocol (yield / resume / close edges, producer steps at consumer loops) and the composition of separately verified "
+       "generators are the executor's meta-rules (DESIGN 2.2, 4E).")
+
 CLAIMED = {
+    'C01': dict(text="Deductive, layer by layer on the real source: Parser.feed is verified against an abstract coroutine - every value it "
+                     "sends is exactly the next bytes of the stream (ghost tile equations over one stream symbol: no gap, overlap or reordering "
+                     "across read boundaries), a fresh copy that never aliases the receive buffer; FrameParser.parse yields, for all headers / "
+                     "length forms (incl. non-minimal) / payloads, the RFC 6455 5.2 decoding of the bytes it received; WebsocketStream.feed keeps "
+                     "the 5.4 reassembly invariant; Message.build's payload is the in-order concatenation of the fragments, typed by the first "
+                     "frame; WebSocket.feed and run() hand on each event object itself, exactly once, in order.",
+                note=TRUST + GEN, design='DESIGN.md 5 C01'),
+    'C02': dict(text="Deductive: Parser.feed's postconditions are stated over the concatenated stream only (tile equations), never over read "
+                     "boundaries; read-until finds the FIRST separator of the stream even when it straddles reads; the incremental UTF-8 "
+                     "validator provably continues from the state the previous chunk left (chunk lemma from the loop invariant) and is reset "
+                     "only when a data message ends; all cross-call state of stream.feed / WebSocket.feed lives in fields covered by invariants.",
+                note=TRUST + GEN + " Deterministic-consumer assumption for the client's writes.", design='DESIGN.md 5 C02'),
+    'C06': dict(text="Deductive plumbing around an assumed zlib contract: negotiated window bits and takeover flags reach zlib unchanged "
+                     "(get_wbits/from_options/reset_*), the deflater's back-references fit the negotiated client window (zlib MAX_DIST fact), "
+                     "compress = zlib output minus the 4-byte tail, decompress feeds every frame payload in order plus the tail and replaces the "
+                     "inflater on no_context_takeover or end-of-stream; RSV1 only via send_compressed and only when negotiated+requested; "
+                     "inflation iff first frame RSV1 and decompressor. Option-string parsing: bounded stand-in.",
+                note=TRUST + " zlib itself is assumed (sync flush ends in 00 00 FF FF; MAX_DIST = 2^w - 262; matching inflater restores the input). "
+                     "parse_extension / Response.get_list are checked only by an exhaustive small-grammar enumeration (labelled bounded, not counted as proved).",
+                design='DESIGN.md 5 C06'),
+    'C07': dict(text="Deductive: a ghost monitor automaton transcribed from the property is advanced at EVERY yield of WebsocketSession.run "
+                     "(and of _regular, WebSocket.feed, _on_close, stream.feed through their yield guarantees); loop invariants relate the phase to "
+                     "_ready and to 'response consumed'; every exit of run() is shown to be in phase Done; no exception other than GeneratorExit escapes.",
+                note=TRUST + GEN + " Liveness beyond one-step progress (the OS honouring timeouts) is not decided.", design='DESIGN.md 5 C07'),
+    'C08': dict(text="Deductive: contracts of close/_send_close/_on_close/write/send/feed and the loop exit of run(): one Close with the given "
+                     "code+reason, later writes refused with nothing written, messages still dispatched while closing, Closed then closed-and-not-"
+                     "closing, Closing then at most one echo with the same code (none if the application already closed), graceful only if a side "
+                     "started the handshake.", note=TRUST + GEN, design='DESIGN.md 5 C08'),
+    'C09': dict(text="Deductive: every external call (connect, sendall, recv_into, selector wait, shutdown/close, getaddrinfo, TLS wrap) has an "
+                     "exceptional successor 'raises some Exception'; run() is proved to let nothing but GeneratorExit escape, to end every such path "
+                     "with exactly one ConnectFail/Disconnected with the socket released and graceful only when a side had started closing; "
+                     "_connect_sock tries every address and closes failed sockets; write/_recv/_send_pong/_check_auto_ping translate or swallow "
+                     "exactly the documented classes.", note=TRUST + GEN + " Selector construction is assumed not to raise.", design='DESIGN.md 5 C09'),
+    'C10': dict(text="Deductive: on_response (loop-free, all paths) accepts iff status 101, Upgrade is websocket and Accept EQUALS the digest of "
+                     "this State's key (sha1/base64 uninterpreted, a function of the key); State.__init__ draws a fresh 16-byte key; the header block "
+                     "limit is 16 KiB in parse/Parser.feed (terminated or not); Rejected releases the socket and ends the stream. Known finding: "
+                     "Accept is compared case-insensitively (carved out, witness replayed every run). Header/request syntax: bounded stand-ins.",
+                note=TRUST + " Response.__init__/get/get_list, build_request: exhaustive small-grammar enumeration only (bounded).", design='DESIGN.md 5 C10'),
+    'C11': dict(text="Deductive ownership + monitor obligations: every sendall/shutdown/close on the session socket is made while the session "
+                     "lock is held (per-call obligation and package-wide AST scan), write performs exactly one sendall of its whole argument, "
+                     "and a compressed message is deflated inside the same critical section that orders its frame on the wire.",
+                note=TRUST + " The step from per-critical-section obligations to all interleavings is the monitor / Owicki-Gries meta-theorem plus GIL atomicity (not machine-checked).",
+                design='DESIGN.md 5 C11'),
+    'C12': dict(text="Deductive monitor invariant 'Close on the wire => closing or closed': proved at every release of the session lock in write "
+                     "(with the flags re-read under the lock after an interference step), and preserved by every store to the flags outside the lock "
+                     "(close, _on_close, on_disconnect - the complete list by package scan); losers are refused with nothing written.",
+                note=TRUST + " Monitor rule / GIL atomicity as for C11.", design='DESIGN.md 5 C12'),
+    'C14': dict(text="Deductive: _on_event/_send_pong/send_pong contracts (exactly one Pong with the identical payload when auto_pong and open, "
+                     "none otherwise, never raising - using the <=125-byte guarantee of the parser) and the order obligation in run(): the library's "
+                     "reaction to an event precedes handing it to the application, at every path.", note=TRUST + GEN, design='DESIGN.md 5 C14'),
+    'C15': dict(text="Deductive over the reals: _check_poll / _check_auto_ping (grid point k*r with (k-1)r < t <= kr) / _check_ping_timeout / "
+                     "_check_close_timeout decide exactly the property's conditions; _regular yields Poll / Unresponsive / raises in that order "
+                     "and only then; _on_event initialises and updates the timers; run() evaluates housekeeping before each read and after every event.",
+                note=TRUST + " Floats are treated as reals; time advances only inside selector.wait (virtual-clock assumption); the multi-cycle "
+                     "consequences (gaps in [p,2p), one ping per period) follow from these per-evaluation contracts by a pen-and-paper argument.",
+                design='DESIGN.md 5 C15'),
+    'C16': dict(text="Deductive loop contract of persist(): events of each attempt passed on themselves once in order, retries == number of "
+                     "consecutive attempts without Ready (invariant), exactly one BackOff with delay == min_wait + u*min(max_wait-min_wait, 2**k) "
+                     "within [min_wait, max_wait], waited for exactly that delay, attempt made with the caller's settings, exit only when the wait returns true.",
+                note=TRUST + GEN + " random() in [0,1) assumed; requires min_wait <= max_wait.", design='DESIGN.md 5 C16'),
+    'C17': dict(text="Deductive constructor postconditions (State.__init__, WebsocketSession.__init__, connect installs a NEW State and session "
+                     "and passes its arguments through; every field at its initial value, fresh key/parser/validator/lock/buffer) plus a package-wide "
+                     "scan: every assigned attribute is inventoried, configuration fields are written only by __init__/add_header, no class- or "
+                     "module-level mutable connection state.", note=TRUST + " 'same behaviour as a fresh object' then follows from determinism of the code under contract (meta-argument).",
+                design='DESIGN.md 5 C17'),
+    'C18': dict(text="Deductive: SelectorBase.wait consults the TLS buffer before the only blocking call of the package and returns buffered "
+                     "bytes without blocking; run() feeds the whole result of each read, never leaves the feed loop early, reacts before yielding; "
+                     "Parser.feed consumes all of its input and yields every completed frame in the same call.",
+                note=TRUST + " The kernel/OpenSSL transport contract (level-triggered poll, pending() = decrypted bytes, <= one record) is assumed; "
+                     "real loopback TCP/TLS runs are out of reach of contracts (DESIGN 6).", design='DESIGN.md 5 C18'),
+    'C19': dict(text="Deductive IO-log contracts: _connect selects the proxy entry by the URL's scheme (falsy = direct), _connect_proxy connects "
+                     "to the proxy's host/port (defaults by proxy scheme), writes exactly one CONNECT for the target host+port, then only reads until "
+                     "ProxyParser.parse (verified: 200 only, else ProxyFail) has yielded; run() writes the upgrade request only after _connect returned "
+                     "and yields ConnectFail with nothing written otherwise. CONNECT syntax: bounded stand-in.",
+                note=TRUST + GEN + " proxy.build_request / status-line parsing: bounded enumeration only.", design='DESIGN.md 5 C19'),
+
     'C03': dict(
         text="Deductive: sidecar contracts on the real mask_payload, Frame.build, build_close_payload, session.write/send/"
              "send_compressed, send_text/send_binary/send_json/send_ping/send_pong, close/_send_close; every path of every "
@@ -22,7 +102,6 @@ CLAIMED = {
              "lengths 0..2^63-1, keys, opcodes and argument kinds. Callers are checked against callee contracts only.",
         note=TRUST + " close()'s contract assumes code in 0..65535 and reason bytes|str; send_json assumes json.dumps returns str. "
              "xor is an uninterpreted symbol in the VCs (table checked exhaustively, involution lemma by bit-vectors).",
-        technique="contract-based deductive verification: ast->SMT VC generation over the real source, z3 (cvc5 fallback)",
         design='DESIGN.md 5 C03'),
 
     'C04': dict(
@@ -33,7 +112,6 @@ CLAIMED = {
              "against the RFC 7.4 sandwich over all 65 536 codes); WebSocket.feed yields exactly one ProtocolError, then only raises, "
              "writing at most one Close; run() turns that into a non-graceful Disconnected with the socket released. All by z3 on the real source.",
         note=TRUST + " Composition of Parser.feed with parse() (coroutine protocol) is the generator meta-rule of DESIGN 2.2/4E: both sides are verified against the same receives-clause.",
-        technique="contract-based deductive verification: ast->SMT VC generation over the real source, z3 (cvc5 fallback)",
         design='DESIGN.md 5 C04'),
     'C05': dict(
         text="Deductive + exhaustive ground lemma: the real DFA table is shown bisimilar to the RFC 3629 / Unicode Table 3-7 automaton "
@@ -42,7 +120,6 @@ CLAIMED = {
              "raises iff it rejects; FrameParser.parse keeps '_is_text <=> a text message is open' and routes exactly the payloads of TEXT frames "
              "and text continuations through the validator (not under compression); Text/Close.from_payload deliver iff strictly decodable.",
         note=TRUST + " bytes.decode('utf-8') is assumed to succeed iff the input is well-formed per RFC 3629 (definition of the uninterpreted wf_utf8 through the verified automaton); REJECT-absorption along a run is lifted from the one-step ground fact by induction (meta-lemma).",
-        technique="contract-based deductive verification (loop invariants over an uninterpreted DFA run) + exhaustive table lemma",
         design='DESIGN.md 5 C05'),
     'C13': dict(
         text="Deductive: at EVERY yield of WebsocketSession.run (and of WebSocket.feed, _regular, _on_close) the executor explores the "
@@ -50,7 +127,6 @@ CLAIMED = {
              "discharges 'session holds no socket and the selector is closed' afterwards; WebSocket.__exit__/on_disconnect/_close_socket carry "
              "the with-block and cleanup paths. No bound on the event index: the obligation is per yield site.",
         note=TRUST + " Assumes CPython finalises a generator as soon as the consumer's loop is left (reference counting); a socket whose shutdown() raises is released by dropping the last reference.",
-        technique="contract-based deductive verification: exceptional (GeneratorExit) postconditions at every yield point",
         design='DESIGN.md 5 C13'),
 }
 
@@ -77,7 +153,7 @@ for p in props:
             "evidence_file": "/verif/evidence/%s.json" % p, "replay_cmd_template": "./check %s --replay {path}" % p,
             "engine": "pyvc",
             "level_claimed": {"category": "proof", "text": c['text'], "design_ref": c['design']},
-            "level_note": c['note'], "technique": c['technique']})
+            "level_note": c['note'], "technique": c.get('technique', TECH)})
     else:
         m['not_applicable'].append({"property_id": p, "reason": NA_REASON})
 
